@@ -25,13 +25,19 @@
        1000 octets and none follows a shorter one, and captures exactly them;
      C16_primitive_accepted - the primitive form is accepted exactly when it
        is not a CER primitive of more than 1000 octets.
-   PARTIAL: the use of the value as a decoding source (OctetStringSource) is
-   decided by the streams (c16.decode source view, c07 kinds 6 and 7, every
-   program case of C02-C04/C09-C11) and not modelled.
+     C16_source_* - the value as a decoding source (OctetStringSource, Proofs/OctSrcP.v): over
+       every string whose segment walk is defined - every primitive and every
+       BER-accepted constructed one - request(n) never reaches an unwrap or
+       unreachable!(), grants at least min(n, what is left) and never more,
+       slice() is a prefix of what is left and only grows, advance(k) drops k
+       octets, and read to the end by requests of any size the source yields
+       exactly the octets of the string (the Source contract C07 assumes).
+   The model of the source is tied to the code by stream c16.source (scripts of
+   request/advance, the amount granted and the whole of slice() after each).
    BER re-encoding of values whose outermost form was indefinite is the known
    finding D17 (C16_ber_reencode_indefinite_refuted, KNOWN-FINDING). *)
 Require Import BV.Model.Base BV.Model.SrcB BV.Model.Length BV.Model.Tag BV.Model.Content BV.Model.OctStr.
-Require Import BV.Proofs.ContentP BV.Proofs.GrammarP BV.Proofs.SkipP BV.Proofs.OctStrP BV.Proofs.OctGrammarP BV.Proofs.OctComplP BV.Proofs.OctCerP BV.Proofs.IntP BV.Proofs.SrcBP.
+Require Import BV.Proofs.ContentP BV.Proofs.GrammarP BV.Proofs.SkipP BV.Proofs.OctStrP BV.Proofs.OctGrammarP BV.Proofs.OctComplP BV.Proofs.OctCerP BV.Proofs.OctSrcP BV.Proofs.IntP BV.Proofs.SrcBP.
 
 Theorem C16_segments_are_leaves : forall m ts ds,
   encs m ts ds -> accepts octet_filter (traces ts 0) = true -> octets_ok ds = true ->
@@ -123,6 +129,38 @@ Example C16_ex_cer_rejects_segment_after_short :
   octstr_take_from Cer T_OCTET_STRING [36;128; 4;1;97; 4;1;98; 0;0] = CErr.
 Proof. vm_compute. reflexivity. Qed.
 
+(* ---- the value as a decoding source (OctetStringSource) ---- *)
+(* `oss_has st data`: the source still has `data` to deliver - its current buffer followed by the primitive
+   segments of the remainder *)
+Theorem C16_source_state : forall st data, oss_has st data <->
+  exists fw segs, seg_walk fw (orem st) [] = Ok segs /\ data = ocur st ++ concat segs.
+Proof. exact (fun st data => conj (fun H => H) (fun H => H)). Qed.
+(* request(n): never reaches an unwrap or unreachable!(), leaves what is to be delivered unchanged, grants at
+   least min(n, what is left) and never more than is left; slice() is a prefix of what is left and only grows *)
+Theorem C16_source_request_contract : forall want st data, oss_has st data ->
+  exists g st', oss_request want st = Ok (g, st') /\ oss_has st' data /\
+    g = len (oss_slice st') /\ N.min want (len data) <= g /\ g <= len data /\
+    (exists rest, data = oss_slice st' ++ rest) /\ (exists extra, oss_slice st' = oss_slice st ++ extra).
+Proof. exact oss_request_contract. Qed.
+Theorem C16_source_advance : forall n st data, oss_has st data -> n <= len (oss_slice st) ->
+  exists st', oss_advance n st = Ok st' /\ oss_has st' (skipN n data) /\ oss_slice st' = skipN n (oss_slice st).
+Proof. exact oss_advance_spec. Qed.
+Theorem C16_source_of_accepted_ber : forall fuel c s o c' s', nf s -> octets_ok (rem s) = true ->
+  take_constructed_ber fuel c s = (Ok (o, c'), s') ->
+  exists x, os_octets o = Ok x /\ oss_has (oss_new o) x.
+Proof. exact oss_of_accepted_ber. Qed.
+Theorem C16_source_of_primitive : forall b, oss_has (oss_new (OPrim b)) b.
+Proof. exact oss_of_primitive. Qed.
+(* read to the end by requests of any size the source yields exactly the octets of the string *)
+Theorem C16_source_presents_octets : forall o x want fuel, os_octets o = Ok x -> 1 <= want -> (length x < fuel)%nat ->
+  oss_drain fuel want (oss_new o) [] = Ok x.
+Proof. exact oss_presents_octets. Qed.
+Example C16_source_ex :
+  oss_drain 20 3 (oss_new (OCons [4; 2; 97; 98; 36; 4; 4; 2; 99; 100])) [] = Ok [97; 98; 99; 100] /\
+  os_octets (OCons [4; 2; 97; 98; 36; 4; 4; 2; 99; 100]) = Ok [97; 98; 99; 100] /\
+  res_map fst (oss_request 3 (oss_new (OCons [4; 2; 97; 98; 36; 4; 4; 2; 99; 100]))) = Ok 4.
+Proof. exact oss_example. Qed.
+
 Print Assumptions C16_segments_are_leaves.
 Print Assumptions C16_constructed_ber.
 Print Assumptions C16_constructed_ber_accepted_definite.
@@ -134,3 +172,9 @@ Print Assumptions C16_views_consistent_partial.
 Print Assumptions C16_primitive_views.
 Print Assumptions C16_der_reencoding.
 Print Assumptions C16_ber_reencode_indefinite_refuted.
+Print Assumptions C16_source_state.
+Print Assumptions C16_source_request_contract.
+Print Assumptions C16_source_advance.
+Print Assumptions C16_source_of_accepted_ber.
+Print Assumptions C16_source_of_primitive.
+Print Assumptions C16_source_presents_octets.
